@@ -77,7 +77,7 @@ Print Assumptions C04_raise_keeps_pending.
    the release (delivery 0), a callback raises (delivery 1), one pending event
    has no listener, and three further assignments finish the job *)
 Definition ex_ok : C04_case :=
-  {| c_classes := [({| cd_cls := 0; cd_base := None; cd_names := [0; 1]; cd_maps := [] |}, [(0, [(0, 0); (1, 1)])])];
+  {| c_classes := [({| cd_cls := 0; cd_bases := []; cd_names := [0; 1]; cd_maps := [] |}, {| co_mro := [0]; co_tab := [(0, Some [(0, 0); (1, 1)])] |})];
      c_hcls := [(1, 0); (2, 0)]; c_eqs := [];
      c_scripts := [(1, [(1, [ARaise])]); (2, [(0, [(ASetEnabled false)])])];
      c_ops := [(AAdd 1); (AAdd 2); (ASetEnabled false); (ADispatch 0 1); (ADispatch 1 0); (ADispatch 2 0);
@@ -94,7 +94,7 @@ Proof. vm_compute. auto. Qed.
 (* the log of the unrepaired setter (events delivered again after a callback
    raised) violates the property, and the model rejects it *)
 Definition ex_redelivered : C04_case :=
-  {| c_classes := [({| cd_cls := 0; cd_base := None; cd_names := [0; 1]; cd_maps := [] |}, [(0, [(0, 0); (1, 1)])])];
+  {| c_classes := [({| cd_cls := 0; cd_bases := []; cd_names := [0; 1]; cd_maps := [] |}, {| co_mro := [0]; co_tab := [(0, Some [(0, 0); (1, 1)])] |})];
      c_hcls := [(1, 0)]; c_eqs := []; c_scripts := [(1, [(1, [ARaise])])];
      c_ops := [(AAdd 1); (ASetEnabled false); (ADispatch 0 0); (ADispatch 1 0); (ASetEnabled true); (ASetEnabled true)];
      c_log := [(EAct (AAdd 1)); (EAct (ASetEnabled false)); (EAct (ADispatch 0 0)); (EAct (ADispatch 1 0));
